@@ -162,6 +162,24 @@ theorem bind_evs_silent {m : M α} {f : α → M β} (hf : ∀ a, Silent (f a)) 
   · rename_i e e1 w1 heq
     simp [heq]
 
+theorem bind_evs_prefix (m : M α) (f : α → M β) (w : World) : ∃ t, ((m >>= f) w).evs = (m w).evs ++ t := by
+  rw [bind_apply]
+  split
+  · rename_i a e1 w1 heq
+    exact ⟨(f a w1).evs, by simp [heq]⟩
+  · rename_i e e1 w1 heq
+    exact ⟨[], by simp [heq]⟩
+
+theorem tryCatchIf_evs_prefix (m : M α) (p : Exc → Bool) (h : Exc → M α) (w : World) :
+    ∃ t, (tryCatchIf m p h w).evs = (m w).evs ++ t := by
+  unfold M.tryCatchIf
+  split
+  · rename_i e e1 w1 heq
+    split
+    · exact ⟨(h e w1).evs, by simp [heq]⟩
+    · exact ⟨[], by simp [heq]⟩
+  · exact ⟨[], by simp⟩
+
 end M
 
 namespace Dongle
